@@ -15,8 +15,10 @@ import (
 	"github.com/gotid/god/lib/breaker"
 	"github.com/gotid/god/lib/logx"
 	"github.com/gotid/god/lib/timex"
+	"github.com/gotid/god/rpc/internal/serverinterceptors"
 	"google.golang.org/grpc"
 	"google.golang.org/grpc/codes"
+	"google.golang.org/grpc/credentials/insecure"
 	"google.golang.org/grpc/status"
 	"google.golang.org/grpc/test/bufconn"
 	"google.golang.org/protobuf/types/known/emptypb"
@@ -92,6 +94,100 @@ func TestVerifDriverC01(t *testing.T) {
 				} else {
 					row[1] = -2
 				}
+			}
+			rows = append(rows, row)
+		}
+		return map[string]any{"rows": rows}
+	})
+}
+
+// ---------------------------------------------------------------- a started server (Server.Start)
+
+type verifC01Backend struct {
+	mode    *[2]int64
+	reached *int64
+}
+
+// verifC01Desc: service verif.c01.Backend with methods Call0..Call63 (one breaker each: the server breaker interceptor
+// names breakers by the full method), all served by the same switched handler.
+func verifC01Desc() *grpc.ServiceDesc {
+	d := &grpc.ServiceDesc{ServiceName: "verif.c01.Backend", HandlerType: (*any)(nil)}
+	for k := 0; k < 64; k++ {
+		full := fmt.Sprintf("/verif.c01.Backend/Call%d", k)
+		d.Methods = append(d.Methods, grpc.MethodDesc{MethodName: fmt.Sprintf("Call%d", k),
+			Handler: func(srv any, ctx context.Context, dec func(any) error, interceptor grpc.UnaryServerInterceptor) (any, error) {
+				in := new(emptypb.Empty)
+				if err := dec(in); err != nil {
+					return nil, err
+				}
+				b := srv.(*verifC01Backend)
+				h := func(ctx context.Context, req any) (any, error) {
+					atomic.AddInt64(b.reached, 1)
+					class, code := atomic.LoadInt64(&b.mode[0]), atomic.LoadInt64(&b.mode[1])
+					if class == 6 { // hangs until its context is done, then gives up with the context's error
+						<-ctx.Done()
+						return nil, ctx.Err()
+					}
+					if code != 0 {
+						return nil, status.Error(codes.Code(code), "verif")
+					}
+					return &emptypb.Empty{}, nil
+				}
+				if interceptor == nil {
+					return h(ctx, in)
+				}
+				return interceptor(ctx, in, &grpc.UnaryServerInfo{Server: srv, FullMethod: full}, h)
+			}})
+	}
+	return d
+}
+
+// TestVerifDriverC01Srv starts ONE server exactly as rpc/server.go does for a ServerConfig with a Timeout: NewServer,
+// AddUnaryInterceptors(UnaryTimeoutInterceptor(timeout)), Start(register) -- so the chain is the one Server.Start
+// assembles (built-ins incl. the breaker interceptor, then the added ones) -- and calls it over TCP with a plain client.
+// {"timeout": ignored after the first case (the server is started once, with 10 ms), "calls": [[class, code], ...]}:
+// class 0 the handler answers the status code at once | 6 the handler overruns the server timeout.
+// Per call [1 iff cut off (handler not reached and an error came back), gRPC code that came back].
+func TestVerifDriverC01Srv(t *testing.T) {
+	logx.Disable()
+	l, err := net.Listen("tcp", "127.0.0.1:0")
+	if err != nil {
+		t.Fatal(err)
+	}
+	addr := l.Addr().String()
+	l.Close()
+	var mode [2]int64
+	var reached int64
+	srv := NewServer(addr)
+	srv.AddUnaryInterceptors(serverinterceptors.UnaryTimeoutInterceptor(10 * time.Millisecond))
+	go srv.Start(func(s *grpc.Server) {
+		s.RegisterService(verifC01Desc(), &verifC01Backend{mode: &mode, reached: &reached})
+	})
+	conn, err := grpc.Dial(addr, grpc.WithTransportCredentials(insecure.NewCredentials()), grpc.WithBlock(),
+		grpc.WithTimeout(5*time.Second))
+	if err != nil {
+		t.Fatal(err)
+	}
+	defer conn.Close()
+	n := -1
+	verifdrv.Run(t, func(raw json.RawMessage) any {
+		var c verifC01Case
+		if err := json.Unmarshal(raw, &c); err != nil {
+			return map[string]any{"error": err.Error()}
+		}
+		timex.VerifSetNow(time.Hour)
+		defer timex.VerifClockOff()
+		n++
+		method := fmt.Sprintf("/verif.c01.Backend/Call%d", n%64)
+		rows := make([][]int64, 0, len(c.Calls))
+		for _, call := range c.Calls {
+			atomic.StoreInt64(&mode[0], call[0])
+			atomic.StoreInt64(&mode[1], call[1])
+			before := atomic.LoadInt64(&reached)
+			err := conn.Invoke(context.Background(), method, &emptypb.Empty{}, &emptypb.Empty{})
+			row := []int64{0, int64(status.Code(err))}
+			if err != nil && atomic.LoadInt64(&reached) == before {
+				row = []int64{1, 100}
 			}
 			rows = append(rows, row)
 		}
